@@ -324,11 +324,11 @@ pub fn retry_sub(tier: Tier) -> Sub {
   sub.rule = "case = one real-time loopback-tcp execution per (scenario kind, RECONNECT_IVL, RECONNECT_IVL_MAX, socket pair) cell; non-trivial = at least one retry was observed or traffic resumed; oracle: reported ConnectRetried intervals start at RECONNECT_IVL, at most double, never exceed RECONNECT_IVL_MAX (when it is >= RECONNECT_IVL); connection attempts against a resetting peer are not back-to-back (gaps not below RECONNECT_IVL/4) and, with a ceiling configured, never further apart than RECONNECT_IVL_MAX + 1.5 s over 8 attempts; after the peer is reachable again a freshly sent message arrives within 10 s + 4 x the largest interval".into();
   let list = cells(tier);
   sub.bounds = json!({"cells": list.len(), "note": "single real-time execution per cell; OS scheduling is not enumerated"});
-  sub.notes.push("E4 cells are real-clock executions: the matrix is enumerated completely, the schedules inside a cell are not".into());
+  sub.notes.push("a violation in a real-clock cell is reported only if it shows again when the cell is executed a second time; E4 cells are real-clock executions: the matrix is enumerated completely, the schedules inside a cell are not".into());
   // real-time scenarios: little CPU, mostly sleeping; run them 8 at a time
   let prev = par::threads();
   let _ = prev;
-  par::enumerate(&mut sub, list.len(), |i| {
+  par::enumerate(&mut sub, list.len(), |i| par::confirmed(|| {
     let c = list[i];
     let rt = tokio::runtime::Builder::new_multi_thread().worker_threads(2).enable_all().build().expect("runtime");
     let out = rt.block_on(async move { tokio::time::timeout(Duration::from_secs(90), run_cell(c)).await });
@@ -349,7 +349,7 @@ pub fn retry_sub(tier: Tier) -> Sub {
       }
     }
     case
-  });
+  }));
   sub
 }
 
